@@ -6,8 +6,8 @@
    it after the term update), the latter tied to real servers by the node-sequence correspondence. *)
 From Coq Require Import List NArith String Bool.
 From stdpp Require Import gmap.
-From RaftModel Require Import Base Config Node NodeCodec LoopTable Notify.
-From RaftProofs Require Import NotifyProofs AdvLeaderProofs.
+From RaftModel Require Import Base Config Node NodeCodec LoopTable Notify Cluster ClusterLog ClusterCommit.
+From RaftProofs Require Import NotifyProofs AdvLeaderProofs ClusterCommitSpec ClusterCommitSnapSpec ClusterLeaderSpec ClusterLeaderMain.
 Import ListNotations.
 Open Scope N_scope.
 
@@ -71,3 +71,18 @@ Example C18_example :
                          [NGain; NLose; NGain; NReadLeaderCh; NReadNotify; NReadNotify; NReadNotify; NLose; NReadLeaderCh] in
   outs = [3; 3; 3; 1; 1; 0; 1; 3; 0] /\ n_notify s = [false] /\ n_leader s = false.
 Proof. vm_compute. repeat split. Qed.
+
+
+(* 5. COMPOSED with election safety, over all runs of the cluster with replication, commitment and (sn)
+   takeSnapshot (Model/ClusterCommit.v): the leader ANY running server advertises (LeaderWithID) was elected
+   leader of that server's current term - "name only a server that really was leader of the follower's current
+   term" - and there is one such server per term.  (Statement Proofs/ClusterLeaderSpec.v; freshly booted
+   servers advertise nobody: nobody_advertised.  InstallSnapshot senders: Model/ClusterSnap.v, monitored.) *)
+Theorem C18_advertised_leader_was_elected_all_runs : forall sn cfg g0 ls g,
+  cinit_snap_ok cfg g0 -> nobody_advertised g0 -> List.Forall label_ok ls -> crun sn [cfg] g0 ls = Some g ->
+  advertised_leaders_are_leaders g /\ one_leader_per_term g.
+Proof.
+  intros sn cfg g0 ls g H0 Hn Hl Hr. destruct (leaders_faithful_all_runs sn cfg g0 ls g H0 Hn Hl Hr) as (A & _ & B & _).
+  split; assumption.
+Qed.
+Print Assumptions C18_advertised_leader_was_elected_all_runs.
